@@ -18,6 +18,8 @@ import (
 // C02 — Pack followed by Unpack reproduces the source tree.
 // C20 — the metadata Pack returns describes the slug it wrote.
 
+var rtSeq int
+
 // c20Earlier is the observation of the previous successful Pack of this worker.
 var c20Earlier *packObs
 
@@ -37,8 +39,12 @@ func rtCaseDesc(c rtCase, env *fw.Env) map[string]interface{} {
 func runRoundTrip(which string, env *fw.Env, c rtCase) fw.Result {
 	res := fw.Result{Hash: fw.HashString(c.Tree.Key() + c.Opts.String() + fmt.Sprint(env.Unpriv)), Case: rtCaseDesc(c, env)}
 	res.NonTrivial = treeFeatures(c.Tree)
-	src, dst := "/rt/src", "/rt/dst"
-	if err := freshDir("/rt"); err != nil {
+	// successive cases of a worker use different locations, so that nothing
+	// remembered about one tree's place can go unnoticed with the next
+	rtSeq++
+	rt := []string{"/rt", "/rt2/deeper", "/rt3"}[rtSeq%3]
+	src, dst := rt+"/src", rt+"/dst"
+	if err := freshDir(rt); err != nil {
 		return fw.Result{Verdict: fw.Inconclusive, Msg: err.Error()}
 	}
 	if err := gen.Materialise(src, c.Tree); err != nil {
